@@ -12,6 +12,8 @@ configure(factory, params, how)   estimator with hyper-parameters `params`:
    time shows.
 carry(est, how)                   same | deepcopy | pickle : the object that the next call is made on
 present(A, how)                   C | F | strided | readonly | list | negstride | bigendian : the same numbers in another container
+numpy_scalars(params)             the same parameter values as np.bool_ / np.int64 / np.float64
+rejected(j, label, fn, ...)       a call the library legitimately refuses, made on the object before the judged calls
 clobber(*arrays)                  the caller re-uses its own buffers after the call: every writable array is overwritten
                                   in place (what the model needs later it must have kept for itself)
 """
@@ -122,3 +124,33 @@ def as_integer(A, dt):
         if top * top * max(A.shape) >= 2.0 ** (8 * dt.itemsize - 2):
             dt = np.dtype("int64")
     return A.astype(dt)
+
+
+def numpy_scalars(params):
+    """The same hyper-parameter values as NumPy scalars (what iterating over np.arange / a boolean array / a parameter
+    grid stored in an array hands out): np.bool_ for bool, np.int64 for int, np.float64 for float."""
+    out = {}
+    for k, v in params.items():
+        if isinstance(v, bool):
+            out[k] = np.bool_(v)
+        elif isinstance(v, int):
+            out[k] = np.int64(v)
+        elif isinstance(v, float):
+            out[k] = np.float64(v)
+        else:
+            out[k] = v
+    return out
+
+
+def rejected(j, label, fn, *a, **kw):
+    """A call that the library legitimately refuses (wrong shape, a request it cannot serve ...).  It must raise - and
+    leave the object as it was, which is what the judgments made AFTERWARDS on the same object decide."""
+    try:
+        fn(*a, **kw)
+    except Exception as e:  # noqa: BLE001
+        if j is not None:
+            j.note("rejected_calls_in_the_history")
+        return type(e).__name__
+    if j is not None:
+        j.note("calls_expected_to_be_rejected_that_were_accepted")
+    return None
